@@ -31,6 +31,9 @@ CLAIMED = {
  "C10": ("deterministic simulation with conn.drop / conn.restart / peer.entity_remove faults placed by an independent fault task while other peers' messages are being handled; ownership-partition oracle over registries (porcupine, with removal operations), client-side references, pending approvals, events and stale writes",
          "Seeded exploration of histories in which 2-3 peers with overlapping numbering subscribe, bind, have writes pending approval (silent application) and are referenced by local client features, while connections are removed (by the peer's own script and by an independent fault task, also mid-handling of other peers' messages), re-established, and entities are announced as removed. After the drain: registry histories including removals are linearizable and every peer's final listing matches, nothing of a removed peer is left, removal events match, removed devices are not resolvable, no pending approval or client-side reference of the removed owner survives while the others keep theirs, nothing is written to a removed connection by an operation (or approval timer) that began after the removal returned, and every connected peer still gets its discovery read answered.",
          "Sampling; trusted: instrumenter, synctest fake clock (approval timers are fired in the drain), porcupine, registry model (A.5).", "5/C10"),
+ "C05": ("deterministic simulation with net.corrupt as the dominant fault: valid traffic of every kind from a scripted peer is mutated at byte level (flip, truncate, splice, insert, replace) and structure level (remove/null/empty/retype/unknown/extreme/duplicate/swap up to three JSON nodes) and delivered before discovery, after reconnects and interleaved with a well-behaved peer; panics are caught at every task boundary, wedges are detected as states, a post-fault discovery read probes service",
+         "Seeded exploration of malformed inputs derived from valid discovery replies/notifications, subscription and binding calls, reads (with filters), replies, notifies and writes with every filter shape, results and node management data, by mutating up to three fields (or bytes) per datagram, delivered in any connection state (before the discovery reply, after reconnect, interleaved with another peer). Oracle: no task panics (signature = panicking function), no task blocks forever on the stack's locks, and after the faults stop every connected peer whose node management feature is still known gets exactly one reply to a valid detailed-discovery read.",
+         "Sampling; trusted: instrumenter, synctest, mutation engine harness/mutate.go. Inputs are datagrams at the SPINE payload level (SHIP framing is outside spine-go).", "5/C05"),
  "C06": ("deterministic simulation: scripted announcers mutate their own model tree and send detailed-discovery replies and partial/full add/remove notifications (several entities per notification, add+remove in one, repeated, unknown removals, nested addresses) after placing subscriptions, bindings and client-side references on the entities; reference-tree oracle (DESIGN A.4) over the remote view, events and registries",
          "Seeded exploration of histories of discovery reply, partial add, partial remove, mixed and full notifications over entity addresses {[1],[2],[1,1],[1,2]} from 1-2 scripted peers, each notification optionally repeated. After every handled notification DeviceRemote.Entities/Features/Operations/FeatureByAddress must render exactly the announced tree (addresses, types, roles, descriptions, read/write operations); at the end exactly one entity-added/removed event per entity that appeared/disappeared, the subscriptions/bindings granted on entities that were never removed are all still listed and those of removed entities are gone, client-side references likewise.",
          "Sampling; trusted: instrumenter, synctest, reference tree semantics A.4. Full notifications that change an entity that stays, selectors etc. are not generated (statement leaves them open).", "5/C06"),
